@@ -838,8 +838,6 @@ def check_mismatch(sess, M, x, acc, cache, classes):
             acc.excluded["row-codec." + syn] += 1
             continue
         inner = {"ber": ref_ber.encode, "uper": ref_per.encode, "oer": ref_oer.encode}[syn](mod, M.rowtype(j), vj)
-        if syn == "oer" and not inner:
-            pass
         data = ref_encode(M, syn, pdu, pdu_value(M, x, openv=(i, Raw(inner))))
         if data is None:
             acc.excluded["ref-excluded." + syn] += 1
@@ -867,7 +865,14 @@ def check_mismatch(sess, M, x, acc, cache, classes):
         else:
             alone_verdict = None
             ad = alone.get("der")
-            if ad not in (None, "fail") and alone.get("consumed") in (str(len(inner)), "0" if inner == b"\x00" else "x"):
+            if syn in ("uper", "oer") and int(alone.get("consumed", 0)) < len(inner) and not (inner == b"\x00" and syn == "uper"):
+                # PER/OER encodings are self-delimiting: the row type stops before the end, so the octets AS A WHOLE are
+                # no encoding of it (X.691 10.2 allows less than one octet of padding, X.696 30 none)
+                if syn == "oer" and sp.get("oer_lenient"):
+                    acc.excluded["known:opentype.oer.container-remainder-ignored(longer content)"] += 1
+                else:
+                    alone_verdict = "partial"
+            elif ad not in (None, "fail") and alone.get("consumed") in (str(len(inner)), "0" if inner == b"\x00" else "x"):
                 if syn == "ber":
                     canon = ad == drv.hexs(inner)
                 else:
@@ -886,6 +891,10 @@ def check_mismatch(sess, M, x, acc, cache, classes):
             probs.append(("swap.accepted." + syn, "identifier %s selects %s, the open type holds an encoding of %s (%s): %s; "
                           "%s decoding of %s returned RC_OK: %s" % (M.idtext(M.rows[i]["id"]), ti, tj, inner.hex(), must_fail, syn,
                                                                      data.hex(), r["_raw"][:300])))
+        elif alone_verdict == "partial" and acc_:
+            probs.append(("swap.accepted." + syn, "%s alone decodes only the first %s of the %d octets %s, the frame with identifier %s "
+                          "accepts all of them as open-type content: %s -> %s" % (ti, alone.get("consumed"), len(inner), inner.hex(),
+                                                                                  M.idtext(M.rows[i]["id"]), data.hex(), r["_raw"][:300])))
         elif alone_verdict == "reject" and acc_:
             probs.append(("swap.diff.accepted." + syn, "%s alone rejects %s (%s) but the frame with identifier %s accepts it as "
                           "open-type content: %s -> %s" % (ti, inner.hex(), alone["_raw"][:120], M.idtext(M.rows[i]["id"]), data.hex(),
@@ -902,6 +911,19 @@ def check_mismatch(sess, M, x, acc, cache, classes):
     # XER: splice the open-type element of row j's document into row i's document
     if M.spec["nest"] is None and "xer" in only:
         di = _libxer(sess, M, pdu, pdu_value(M, x), frames_sound(sess, M, x["frames"], cache))
+        if di:
+            # not well-formed: the wrapper element of the open type is closed by another name
+            vn = sp["valname"].encode()
+            k = di.rfind(b"</" + vn + b">")
+            if k >= 0:
+                doc = di[:k] + b"</x" + vn[1:] + b">" + di[k + len(vn) + 3:]
+                r = _dec(sess, pdu, "xer", doc)
+                _safety(r, probs, "open-type element closed by another name, xer")
+                classes.append("xer.bad-close.rc%s" % r.get("rc"))
+                if r.get("rc") == "0":
+                    probs.append(("xer.bad-close.accepted", "the open-type element <%s> is closed by </x%s> (not well-formed) "
+                                  "but XER decoding returned RC_OK: %s -> %s" % (sp["valname"], sp["valname"][1:], doc[:400],
+                                                                                 r["_raw"][:300])))
         xj = dict(x, frames=[dict(o, present=True, pre=f0["pre"], post=f0["post"])])
         dj = _libxer(sess, M, pdu, pdu_value(M, xj), frames_sound(sess, M, xj["frames"], cache))
         vn = sp["valname"].encode()
@@ -941,7 +963,7 @@ def _content_offset(M, x, syn, enc):
         return None
     if len(inner) < 2:
         return None
-    pos = enc.find(inner)
+    pos = enc.rfind(inner)        # the last occurrence: nothing in front of the content may be touched
     return pos if pos > 0 else None
 
 
@@ -991,7 +1013,7 @@ def check_mutation(sess, M, x, acc, cache, classes):
 
 
 def run_case(sess, M, x, acc, cache, probe=False):
-    """Evaluates one example; returns (problems, replay) — counts evaluations itself."""
+    """Evaluates one example (up to three oracle applications, each counted as an evaluation); returns the problems."""
     sp = M.spec
     f0 = x["frames"][0]
     shape = M.shape()
@@ -1042,6 +1064,14 @@ def fail_key(spec, probs):
     return h(probs[0][0], spec["tagdefault"], spec["nest"], spec["style"])
 
 
+def crash_site(text):
+    """Where the driver died: the sanitizer's SUMMARY line without addresses (one key per crash site, not per module)."""
+    for line in text.splitlines():
+        if line.startswith("SUMMARY:") or "Assertion" in line or "runtime error" in line:
+            return re.sub(r"0x[0-9a-f]+|==\d+==|/verif/build/work/[^/]+/", "", line)[:200]
+    return text[-120:]
+
+
 def summary(M, x, probs):
     return "%s\n--- module ---\n%s--- case ---\n%s\n--- known-class candidates: %s" % (
         "\n".join(p[1] for p in probs[:6]), M.text, val_repr(x_to_json(x), 900), problem_class(M.spec, probs[0][0]) or "none")
@@ -1081,7 +1111,18 @@ def drop_bad_rows(spec, acc, bad=()):
     return s2
 
 
-def worker(spec, wseed, nvalues):
+def _first_for_key(rundir, key):
+    """True for exactly one worker per run and failure key (marker file): the others skip the costly minimisation."""
+    if not rundir:
+        return True
+    try:
+        os.close(os.open(os.path.join(rundir, "min-" + h(key)), os.O_CREAT | os.O_EXCL | os.O_WRONLY))
+        return True
+    except OSError:
+        return False
+
+
+def worker(spec, wseed, nvalues, rundir=None):
     t0 = time.time()
     acc = Acc()
     spec = apply_known(spec, acc)
@@ -1122,7 +1163,7 @@ def worker(spec, wseed, nvalues):
             try:
                 probs = run_case(sess, M, x, acc, cache)
             except drv.DriverCrash as e:
-                f = Fail(fail_key(spec, [("crash",)]) if problem_class(spec, "crash") else h("crash", M.shape(), str(e)[-200:]),
+                f = Fail(fail_key(spec, [("crash",)]) if problem_class(spec, "crash") else h("crash", crash_site(str(e))),
                          "driver crashed/hung\n%s\n--- module ---\n%s--- case ---\n%s\n--- last commands ---\n%s" % (
                              str(e)[-2500:], M.text, val_repr(x_to_json(x), 900), "\n".join(c[:300] for c in e.history[-4:])),
                          make_replay(spec, x))
@@ -1145,7 +1186,7 @@ def worker(spec, wseed, nvalues):
             if f.key == "flaky":
                 acc.notes.append(f.summary[:500])
             else:
-                if not f.key.startswith("class:"):
+                if not f.key.startswith("class:") and _first_for_key(rundir, f.key):
                     try:
                         f = minimise(f)
                     except Exception as e:      # minimisation is best effort
@@ -1435,6 +1476,24 @@ def write_probes():
         print("wrote", os.path.join(d, cls + ".json"))
 
 
+# What the generator leaves out because asn1c refuses it or emits C that does not build (none of these is a C18 matter;
+# measured while the generator was written, see the probing notes in the check's report)
+RESTRICTIONS = {
+    "class without WITH SYNTAX": "generated with probability 1/12; asn1c refuses the object set ('contains no objects', "
+                                 "asn1fix_cws.c: \"Can't process classes without WITH SYNTAX just yet\"): counted at run time as "
+                                 "modules_rejected.asn1c.no-with-syntax",
+    "tag on a class-field member (id [0] C.&id({S}))": "not generated: grammar parse error \"unexpected '['\" (7 of 24 modules "
+                                                       "of the first generator version); only the plain members carry tags",
+    "same type in two rows": "not generated: duplicate enumerator Frame__val_PR_T5 in the generated header (7 of 24 modules "
+                             "of the first generator version) - a C10 matter",
+    "built-in type as a row ({ INTEGER IDENTIFIED BY 3 })": "not generated: truncated initializer (DESIGN.md section 7 #7, C10)",
+    "extension marker in a frame whose open type is untagged": "not generated: asn1c refuses it ('component val has the same "
+                                                               "tag as component ...')",
+    "row types asn1c or clang refuse on their own": "removed from the set at run time and counted (row_types_refused_by_asn1c)",
+    "relation forms": "@id and @.id only (emit_member_type_selector refuses outer-level references such as @..id)",
+}
+
+
 def draw_specs(seed, n):
     return pipeline.draw_modules(seed, n, None, specs())
 
@@ -1453,8 +1512,8 @@ def main(argv):
     for c in [c for c in os.environ.get(ENV_ASSUME, "").split(",") if c]:
         KNOWN.known.setdefault((PID, c), "class=%s (assumed listed through %s: test only)" % (c, ENV_ASSUME))
         chk.assumptions.append("TEST ONLY: class %s treated as listed through %s" % (c, ENV_ASSUME))
-    nm = a.modules or chk.pick(110, 700)
-    nv = a.values or chk.pick(100, 300)
+    nm = a.modules or chk.pick(170, 700)
+    nv = a.values or chk.pick(110, 300)
     variants = ("asan", "fuzz") if chk.thorough else ("asan",)
     _, _, bt = build.warm(variants)
     chk.extra_coverage["build_s"] = round(bt, 1)
@@ -1465,13 +1524,19 @@ def main(argv):
     sp = draw_specs(chk.seed, nm)
     chk.extra_coverage["draw_modules_s"] = round(time.time() - t1, 1)
     chk.extra_coverage["modules_drawn"] = len(sp)
-    args = [(s, chk.seed * 7919 + i, nv) for i, s in enumerate(sp)]
+    chk.extra_coverage["generator_restrictions"] = RESTRICTIONS
+    rundir = drv.mkwork("c18run")
+    args = [(s, chk.seed * 7919 + i, nv, rundir) for i, s in enumerate(sp)]
     t1 = time.time()
-    for kind, r in run_pool(worker, args, a.workers):
-        if kind == "ok":
-            chk.acc.merge(r)
-        else:
-            chk.error("worker failed: " + r[-3000:])
+    try:
+        for kind, r in run_pool(worker, args, a.workers):
+            if kind == "ok":
+                chk.acc.merge(r)
+            else:
+                chk.error("worker failed: " + r[-3000:])
+    finally:
+        import shutil
+        shutil.rmtree(rundir, ignore_errors=True)
     chk.extra_coverage["pool_s"] = round(time.time() - t1, 1)
     if chk.thorough:
         # coverage-guided campaigns over every type and syntax of class/object-set modules, seeded with reference frame
@@ -1497,6 +1562,11 @@ def main(argv):
     if rej - ex.get("modules_rejected.asn1c.no-with-syntax", 0) > len(sp) * 0.15:
         chk.error("generator problem: %d of %d modules were refused for a reason other than the documented "
                   "'no WITH SYNTAX' limitation" % (rej - ex.get("modules_rejected.asn1c.no-with-syntax", 0), len(sp)))
+    if len(chk.acc.violations) > 8:
+        # one defect can surface in many modules: confirm and print the first eight distinct keys, count the rest
+        chk.acc.notes.append("%d further candidate violations with other keys were not confirmed/printed" % (len(chk.acc.violations) - 8))
+        chk.acc.extra["violations_not_printed"] += len(chk.acc.violations) - 8
+        chk.acc.violations = chk.acc.violations[:8]
     t1 = time.time()
     runner.confirm(chk, replay_case)
     chk.extra_coverage["confirm_s"] = round(time.time() - t1, 1)
